@@ -3654,6 +3654,7 @@ void space_text()
                              || (  first == '+'
                                 && language_is_set(lang_flag_e::LANG_D))))
                        || (  last == '<'
+                          && pc->Len() == 1            // '<<' followed by '#' stays two tokens
                           && first == '#'))
                {
                   // '/' followed by '*' or '/' (or '+' in D) would open a comment, '<#' a code placeholder
